@@ -39,7 +39,13 @@ func main() {
 	list := flag.Bool("list", false, "list properties")
 	selftest := flag.Bool("selftest", false, "run primitive fixtures only")
 	manifest := flag.Bool("manifest", false, "print MANIFEST.json for the registered properties")
+	rxeq := flag.Bool("rxeq", false, "debug: decide language equality of the two regexps given as arguments")
 	flag.Parse()
+	if *rxeq {
+		ok, w, err := RegexEquivalent(flag.Arg(0), flag.Arg(1))
+		fmt.Printf("equivalent=%v witness=%q err=%v\n", ok, w, err)
+		return
+	}
 	if *manifest {
 		printManifest()
 		return
